@@ -291,6 +291,33 @@ def generate(tier, seed, ctx):
         x = rng.choice([0.0, -1.0, -1e-300, m * rng.uniform(0, 5), m * 10.0 ** rng.uniform(-12, 2.8)])
         for op in ("exp_pdf", "exp_cdf", "mb_pdf", "mb_cdf"):
             R.append("c07.%s %s %s" % (op, hx(x), hx(m)))
+    # joint extreme scales: the scale parameter over 1e-150..1e150 with the argument of the SAME order (x = scale * t,
+    # t in [0.01,10]) for every scale family (normal sigma (and mu), exponential mean, Maxwell-Boltzmann a, uniform width):
+    # density finite, non-negative and equal to the standardized density / scale; CDF difference = integral of the density
+    for j in range(60 * n1):
+        e = rng.uniform(100, 150) * rng.choice([-1, 1]) if j % 3 else rng.uniform(-150, 150)
+        sc = 10.0 ** e
+        for _ in range(2):
+            t = 10.0 ** rng.uniform(-2, 1)
+            for op in ("exp_pdf", "exp_cdf", "mb_pdf", "mb_cdf"):
+                R.append("c07.%s %s %s" % (op, hx(sc * t), hx(sc)))
+            mu = sc * rng.uniform(-3, 3)
+            z = rng.uniform(-8, 8)
+            R.append("c07.gauss_pdf %s %s %s" % (hx(mu + z * sc), hx(mu), hx(sc)))
+            R.append("c07.gauss_cdf %s %s %s" % (hx(mu + z * sc), hx(mu), hx(sc)))
+            lo = sc * rng.uniform(-3, 3); hi = lo + sc * t
+            if hi > lo:
+                xx = lo + (hi - lo) * rng.uniform(-0.2, 1.2)
+                R.append("c07.unif_pdf %s %s %s" % (hx(xx), hx(lo), hx(hi)))
+                R.append("c07.unif_cdf %s %s %s" % (hx(xx), hx(lo), hx(hi)))
+    for j in range(4 * n1):
+        sc = 10.0 ** (rng.uniform(100, 150) * (1 if j % 2 else -1))
+        xs = [0.0] + [sc * 10.0 ** rng.uniform(-2, 1) for _ in range(9)]
+        grid("exp", (sc,), xs, None, lambda x: "c07.exp_cdf %s %s" % (hx(x), hx(sc)))
+        grid("mb", (sc,), xs, None, lambda x: "c07.mb_cdf %s %s" % (hx(x), hx(sc)))
+        mu = sc * rng.uniform(-3, 3)
+        gx = [mu + sc * rng.uniform(-8, 8) for _ in range(10)]
+        grid("gauss", (mu, sc), gx, None, lambda x: "c07.gauss_cdf %s %s %s" % (hx(x), hx(mu), hx(sc)))
     # small arguments, where the closed forms cancel (x/a in [1e-5,1e-1]): pairs 1e-8 apart (relative) straddling candidate
     # switch points x/a = 10^-k, 2^-k and random ones -- the CDF is compared at the rounding noise of its own formula
     # (i.e. relatively to the CDF, not to an absolute floor) and must not decrease across a pair
@@ -334,6 +361,20 @@ def generate(tier, seed, ctx):
                 b = b + [1.0] if b else [1.0] * (m + 1)
         for op in ("lik_b", "loglik_b"):
             R.append("c07.%s %s %s %s" % (op, lst(s), ilst(n), lst(b)))
+    # bins with exact zeros: every combination of zero / non-zero (prediction, observation, background) the code accepts
+    # (signal + background > 0), explicit background vectors: the binned likelihood is the product of PMF_Poisson(n_i; s_i+b_i)
+    combos = [(zs, zn, zb) for zs in (0, 1) for zn in (0, 1) for zb in (0, 1) if zs or zb]
+    for j in range(60 * n1):
+        m = rng.randint(1, 6)
+        pick = [combos[(j + i) % len(combos)] if i == 0 else rng.choice(combos) for i in range(m)]
+        rng.shuffle(pick)
+        sv = [rng.choice([rng.uniform(0.01, 30), 10.0 ** rng.uniform(-3, 1)]) if zs else 0.0 for zs, zn, zb in pick]
+        bv = [rng.choice([rng.uniform(0.01, 10), 10.0 ** rng.uniform(-3, 1)]) if zb else 0.0 for zs, zn, zb in pick]
+        nv = [(max(1, int(sv[i] + bv[i] + rng.uniform(-2, 4))) if zn else 0) for i, (zs, zn, zb) in enumerate(pick)]
+        if all(v == 0.0 for v in bv) and rng.random() < 0.5:
+            bv = []          # the default background
+        for op in ("lik_b", "loglik_b"):
+            R.append("c07.%s %s %s %s" % (op, lst(sv), ilst(nv), lst(bv)))
     # ---- KDE ----
     for _ in range(24 * n1):
         N = rng.choice([1, 2, 3, 4, 7, 30, 100, rng.randint(3, 200)])
@@ -612,7 +653,18 @@ def _check(op, a, ti, mt, ctx):
                 out.append(fail("prop", "Likelihood_Poisson is not PMF_Poisson at signal plus background", "got %r, pmf %r" % (v, pmf)))
     elif op in ("c07.lik_b", "c07.loglik_b"):
         m = int(a[0]); s = [fl(t) for t in a[1:1 + m]]
+        mn = int(a[1 + m]); nobs = [int(t) for t in a[2 + m:2 + m + mn]]
+        mb = int(a[2 + m + mn]); bg = [fl(t) for t in a[3 + m + mn:3 + m + mn + mb]] or [0.0] * m
         v = fl(ti[0]); per = [fl(t) for t in ti[1:1 + m]]
+        if mn == m and len(bg) == m and all(si + bi > 0 for si, bi in zip(s, bg)):
+            # the definition: product over bins of the Poisson mass function at signal plus background
+            lls = [d_loglik(M(Fraction(si)), ni, M(Fraction(bi))) for si, ni, bi in zip(s, nobs, bg)]
+            tot = mpmath.fsum(lls)
+            scd = sum(abs(ni * mpmath.log(M(Fraction(si)) + M(Fraction(bi)))) + 2 * mpmath.loggamma(ni + 1) + si + bi + ni for si, ni, bi in zip(s, nobs, bg)) + 8 * (m + 1)
+            if op == "c07.loglik_b":
+                _val(ctx, out, "Log_Likelihood_Poisson_Binned", v, tot, K_EXP * EPSF * scd, "is not the sum over bins of log PMF_Poisson(n_i; s_i+b_i)")
+            else:
+                _val(ctx, out, "Likelihood_Poisson_Binned", v, mpmath.exp(tot), mpmath.exp(tot) * K_EXP * EPSF * scd + FLOOR, "is not the product over bins of PMF_Poisson(n_i; s_i+b_i)")
         if len(per) != m:
             out.append(fail("corr", "binned likelihood: wrong number of per-bin values", ""))
             return out
